@@ -90,9 +90,14 @@ pub fn tree_json<const K: usize>(t: &AffTree<K>, q: f64) -> Value {
                 NodeState::Feasible => ("F", vec![]),
                 NodeState::FeasibleWitness(ws) => ("W", ws.iter().map(|p| witness_json(p)).collect()),
             };
+            let to_poly_same = { let p = nd.value.to_poly(); (p.mat == nd.value.aff.mat && p.bias == nd.value.aff.bias) as i64 };
             json!({"i": i, "p": nd.parent.map(|p| p as i64).unwrap_or(-1),
                    "ch": nd.children.iter().map(|c| c.map(|c| c as i64).unwrap_or(-1)).collect::<Vec<_>>(),
-                   "leaf": nd.isleaf, "m": m, "b": b, "q": q as i64, "cols": nd.value.aff.indim(), "st": st, "w": w, "ex": ex})
+                   "leaf": nd.isleaf, "m": m, "b": b, "q": q as i64, "cols": nd.value.aff.indim(), "st": st, "w": w, "ex": ex,
+                   // what the state helpers of node.rs answer: [is_feasible, is_infeasible, is_indetermined, #feasible_witnesses, to_poly() keeps the rows]
+                   "hf": [nd.value.state.is_feasible() as i64, nd.value.state.is_infeasible() as i64, nd.value.state.is_indetermined() as i64,
+                          nd.value.feasible_witnesses().len() as i64,
+                          to_poly_same]})
         })
         .collect();
     let root = crate::guarded(|| t.tree.get_root_idx() as i64).unwrap_or(-1);
